@@ -62,6 +62,7 @@ type tracker struct {
 	seedOfRow map[string]string
 	outlinks  []outlinkRec
 	finStep   map[string]int
+	released  map[string]bool // seeds the reactor has let go (state table entry deleted)
 }
 
 type outlinkRec struct {
@@ -73,7 +74,7 @@ func newTracker(r *e2e) *tracker {
 	return &tracker{r: r, taken: map[string]int{}, accepted: map[string]int{}, finSend: map[string]int{}, finRecv: map[string]int{},
 		discarded: map[string]int{}, tracked: map[string]bool{}, passes: map[string]int{}, waiting: map[string][]*exchange{},
 		current: map[string]*exchange{}, bySeed: map[string][]*exchange{}, visits: map[string]int{}, visitKind: map[string][]string{},
-		seedOfRow: map[string]string{}, finStep: map[string]int{}}
+		seedOfRow: map[string]string{}, finStep: map[string]int{}, released: map[string]bool{}}
 }
 
 func (t *tracker) Name() string { return "tracker" }
@@ -96,6 +97,7 @@ func (t *tracker) OnEvent(k *Kernel, ev *Event) {
 		t.tracked[nm] = true
 	case "reactor.finish.deleted":
 		delete(t.tracked, seedArg(ev.Args[0]))
+		t.released[seedArg(ev.Args[0])] = true
 	case "reactor.run.recv":
 		t.passes[seedArg(ev.Args[0])]++
 	case "fin.finish.send":
@@ -240,6 +242,10 @@ func (o *oC01) OnEvent(k *Kernel, ev *Event) {
 		}
 		if bad := nonTerminal(it); len(bad) > 0 {
 			k.Violate("C01", "tree-terminal", "finished-with-pending-node", fmt.Sprintf("seed %s finished while nodes are not terminal: %v", nm, bad))
+			if o.r.in.Property == "C04" {
+				// the row is about to be deleted from the queue: after a restart nothing will crawl the rest of this tree
+				k.Violate("C04", "resumed", "row-finished-with-unfetched-tree", fmt.Sprintf("seed %s is reported finished to the queue (its row will be deleted) while these nodes of its tree were never fetched or processed: %v", nm, bad))
+			}
 		}
 		// every planted URL of this seed's tree must have been requested before this instant
 		var miss []string
@@ -347,7 +353,23 @@ func (o *oC01) OnIdle(k *Kernel) {
 		k.Violate("C01", "tree-fetched", "shared-url-never-fetched", fmt.Sprintf("%v", miss))
 	}
 }
-func (o *oC01) OnEnd(k *Kernel) {}
+func (o *oC01) OnEnd(k *Kernel) {
+	if !o.r.stopReturned {
+		return
+	}
+	// a graceful stop may abandon seeds that are still tracked (the queue keeps them), but a seed the reactor has
+	// already released is in nobody's books any more: it must have been reported to the queue
+	var lost []string
+	for _, nm := range o.t.takenIDs {
+		if o.t.released[nm] && o.t.finRecv[nm] == 0 {
+			lost = append(lost, nm)
+		}
+	}
+	if len(lost) > 0 {
+		sort.Strings(lost)
+		k.Violate("C01", "never-dropped", "released-seed-never-reported", fmt.Sprintf("after the stop returned: these seeds were released by the reactor (no longer tracked, token given back) but never reported to the queue as finished: %v", lost))
+	}
+}
 
 // ---------------------------------------------------------------- C02
 
